@@ -388,8 +388,13 @@ def check_props(prop, extra_targets=()):
     # force a re-check of the property file itself so that its Print Assumptions output is seen
     vo = os.path.join(COQ, target)
     if os.path.exists(vo): os.remove(vo)
+    # Proofs/<prop>SpecPinned.v (optional): further pinned statements of the property (the uniform "the executable spec
+    # holds of the model" theorems), required by Props/<prop>.v; re-checked and counted like the Props file itself
+    pinned = os.path.join(COQ, "Proofs", "%sSpecPinned.v" % prop)
+    if os.path.exists(pinned) and os.path.exists(pinned + "o"): os.remove(pinned + "o")
     ok, out = coq_make(list(extra_targets) + [target])
     text = open(src).read() if os.path.exists(src) else ""
+    if os.path.exists(pinned): text += "\n" + open(pinned).read()
     theorems = re.findall(r"^\s*(?:Theorem|Lemma|Corollary|Example)\s+(\w+)", text, re.M)
     axioms = set()
     closed = 0
